@@ -110,11 +110,20 @@ def rank (i : UserInfo) : Nat := rankW W i
 
 def Sched.rankOf (s : Sched) (x : Xfer) : Nat := rank (s.users x.user)
 
-/-- `_prioritize_uploads` (manager.py:649-675): stable ascending sort on the rank, then reversed.
-`List.mergeSort` is core's stable sort; a stable sort is determined by its input, so it agrees with
-`list.sort(key=…)`. -/
+/-- stable insertion into an ascending list: before the first element whose key is not smaller -/
+def insAsc (key : Xfer → Nat) (a : Xfer) : List Xfer → List Xfer
+  | [] => [a]
+  | b :: l => if key a ≤ key b then a :: b :: l else b :: insAsc key a l
+
+/-- stable ascending sort.  `list.sort(key=…)` is stable and a stable sort is determined by its
+input, so this is what `ranking.sort(key=itemgetter(0))` (manager.py:674) returns. -/
+def sortAsc (key : Xfer → Nat) : List Xfer → List Xfer
+  | [] => []
+  | a :: l => insAsc key a (sortAsc key l)
+
+/-- `_prioritize_uploads` (manager.py:649-675): stable ascending sort on the rank, then reversed. -/
 def Sched.prioritize (s : Sched) (l : List Xfer) : List Xfer :=
-  (l.mergeSort (fun a b => decide (s.rankOf a ≤ s.rankOf b))).reverse
+  (sortAsc s.rankOf l).reverse
 
 /-- second component of `_get_queued_transfers()` -/
 def Sched.eligible (s : Sched) : List Xfer := s.prioritize s.candidates
